@@ -1,6 +1,7 @@
 """C10 - lookup returns exactly the matching recordings, identically on all cassettes."""
 from __future__ import annotations
 
+import copy
 import itertools
 import os
 
@@ -10,9 +11,9 @@ from mc.core import viol
 
 ID = 'C10'
 LEVEL = 'model_checking'
-RULE = ('every set of up to 3 saved recordings over 11 recording kinds (categories Op / OpX / Op_X / B that are prefixes of one another or '
+RULE = ('every set of up to 3 saved recordings over 12 recording kinds (categories Op / OpX / Op_X / B that are prefixes of one another or '
         'contain underscores; metadata absent / {m:1} / {m:2,s:ab}; incomplete flag absent / False / True / None) x every query (5 '
-        'categories x 9 filters x limits None/1/2/5 x ordered/random through iter_recording_ids, and the studio lookup with and without '
+        'categories x 13 filters x limits None/1/2/5 x ordered/random through iter_recording_ids, and the studio lookup with and without '
         'skip-incomplete) on 10 cassette configurations (memory; file with sorted and reversed directory listing and in a directory whose name contains pattern metacharacters; S3 with key prefix '
         "'', 'p', 'pp', 'run_metadata', 'fullish/x' in one shared fake bucket holding foreign recordings; read-only S3 view). states = distinct saved sets. "
         'Non-trivial = query whose reference answer is a proper, non-empty subset of the saved recordings.')
@@ -21,10 +22,12 @@ ASSUMPTIONS = ['limit=0 is outside the domain (degenerate)', 'listing ORDER is n
 
 INC = '_tape_recorder_incomplete_recording'
 KINDS = [('Op', {}), ('Op', {'m': 1}), ('Op', {'m': 2, 's': 'ab'}), ('OpX', {'m': 1}), ('Op_X', {'m': 1}), ('B', {'m': 2, 's': 'ab'}),
-         ('Op', {'m': 1, INC: False}), ('Op', {'m': 1, INC: True}), ('Op', {'m': 2, INC: None}), ('OpX', {INC: True}), ('Op_X', {'s': 'b'})]
+         ('Op', {'m': 1, INC: False}), ('Op', {'m': 1, INC: True}), ('Op', {'m': 2, INC: None}), ('OpX', {INC: True}), ('Op_X', {'s': 'b'}),
+         ('Op', {'m': 1, 'ctx': {'k': [1], 'n': {'z': 0}}})]
 CATS = ['Op', 'OpX', 'Op_X', 'B', 'Zz']
 FILTERS = [None, {'m': 1}, {'m': [1, 2]}, {'s': 'a*'}, {'m': {'operator': '>', 'value': 1}}, {'absent_key': None}, {'absent_key': 1},
-           {INC: [False, None]}, {'s': [['zz', None], 'q']}]
+           {INC: [False, None]}, {'s': [['zz', None], 'q']},
+           {'s': 'a*', 'm': 1}, {'m': 1, 's': 'a*'}, {'m': 2, 's': 'ab'}, {'ctx': {'k': [1], 'n': {'z': 0}}}]   # several keys (both orders); a nested value
 LIMITS = [None, 1, 2, 5]
 CONFIGS = [('mem', None), ('file', 'sorted'), ('file', 'reversed'), ('s3', ''), ('s3', 'p'), ('s3', 'pp'), ('s3-ro', 'p'), ('s3', 'run_metadata'), ('s3', 'fullish/x'), ('file', 'odd-dir')]
 
@@ -96,9 +99,16 @@ def _judge(case, writer, reader):
         cat, md = KINDS[ki]
         r = writer.create_new_recording(cat)
         r.set_data('k', ki)
-        r.add_metadata(dict(md))
+        live = copy.deepcopy(md)
+        r.add_metadata(live)
         writer.save_recording(r)
-        saved.append((r.id, cat, dict(md)))
+        saved.append((r.id, cat, copy.deepcopy(md)))
+        # what the service does afterwards with the objects it had handed in must not reach what was saved
+        for v in live.values():
+            if isinstance(v, dict):
+                v.setdefault('k', []).append('later')
+                v['added-later'] = True
+        live['m'] = 'changed-later'
     if case.get('resave'):   # the first recording is saved once more with other metadata: still ONE recording, latest metadata
         from playback.recordings.memory.memory_recording import MemoryRecording
         rid, cat, md = saved[0]
